@@ -5,6 +5,17 @@ import json, os, subprocess
 ROOT = os.path.dirname(os.path.dirname(os.path.abspath(__file__)))
 
 CHECKS = {
+    "C02": dict(
+        text="TLA+ spec core/Aio.tla of one nng_aio (fields of struct nng_aio/nni_task; consumer, provider with honouring/declining "
+             "cancel function, expire thread under a virtual clock, task thread, stop/free) model checked for exactly-once, "
+             "result faithfulness, no early timeout, stop/free soundness; every transition of the graph is replayed on the real "
+             "aio framework under the NNG_VERIF task gate (callbacks run when the behaviour says so) and virtual clock; and the "
+             "H-AIO trace records (state after every critical section) of the repository's own tests are validated by TLC "
+             "against trace/TraceAio.tla, with a corrupted-trace self-test on every run.",
+        note="Trusted: TLC, harness/drv_aio.c + dee.c, the add-only NNG_VERIF hooks, ASan/UBSan. One aio at a time; interleavings "
+             "inside a critical section are excluded by eq_mtx; internal aios are covered as far as the traced tests reach them.",
+        technique="TLA+ model checking (TLC) + gated edge-cover replay + TLC trace validation of hook traces",
+        ref="DESIGN.md section 4, C02"),
     "C17": dict(
         text="TLA+ spec data/Msg.tla: nng_msg as two run-length encoded byte strings plus a transcription of the nni_chunk "
              "geometry and buffer content; TLC checks refinement, in-bounds copies, capacity >= length, header <= 64 for all "
